@@ -149,6 +149,65 @@ def itrace(tid, E, PTS, r, script, init, fn, start_pos):
             'final': {'stream': stream, 'maxp': rank, 'hasomen': has, 'ng': ng}}
 
 
+def worker_session(path, fn, mode, g, limit, hashseed):
+    """one session in its own interpreter with its own string-hash seed"""
+    import subprocess
+    env = dict(os.environ, PYTHONHASHSEED=str(hashseed), PYTHONDONTWRITEBYTECODE='1', PYTHONPATH=core.VERIF)
+    p = subprocess.run([core.PY, '-m', 'harness.session_worker', path, fn, mode, '-' if g is None else str(g), '-' if limit is None else str(limit)],
+                       cwd=core.VERIF, env=env, capture_output=True, text=True, timeout=300)
+    last = p.stdout.strip().split('\n')[-1] if p.stdout.strip() else ''
+    try:
+        return json.loads(last)
+    except ValueError:
+        raise core.MachineryError('session worker gave no result: rc=%s %s' % (p.returncode, p.stderr[-400:]))
+
+
+def process_histories(path, E, rng, tier, work):
+    """C15 / C08 as the tool is really used: every session of a quit / --load history is a separate process (separate
+    interpreter state, separate string-hash seed); only the save files connect them"""
+    from concurrent.futures import ThreadPoolExecutor
+    mpos = [k for k, e in enumerate(E, 1) if e[1]]
+    others = [k for k, e in enumerate(E, 1) if not e[1]]
+    plans = []
+    for g1 in mpos:
+        plans.append([g1])
+        plans.append([g1, rng.randint(1, 3)])
+    for g1 in others[:-1]:
+        plans.append([g1])
+    n = 10 if tier == 'quick' else 60
+    if len(plans) > n:
+        plans = rng.sample(plans, n)
+    seeds = [[rng.randrange(1, 4000000) for _ in range(len(p) + 1)] for p in plans]
+
+    def run(job):
+        k, plan, hs = job
+        fn = os.path.join(work, 'proc%d_%d.sav' % (rng_tag, k))
+        sess, total = [], 0
+        for si, g in enumerate(plan):
+            if total >= len(E):
+                break
+            sp = saved_prob(fn) if si else None
+            r = worker_session(path, fn, 'new' if si == 0 else 'load', g, None, hs[si])
+            if r.get('error'):
+                core.PENDING_RAISES.append({'error': r['error'], 'via': 'session in its own process', 'plan': plan, 'session': si + 1})
+            took = bool(r['quit'] and r['saves'])
+            sess.append({'lines': r['lines'], 'q': took, 'saved': sp, 'qn': g if took else None})
+            total += len(r['lines'])
+            if not took:
+                break
+        if sess[-1]['q']:
+            sp = saved_prob(fn)
+            r = worker_session(path, fn, 'load', None, None, hs[-1])
+            if r.get('error'):
+                core.PENDING_RAISES.append({'error': r['error'], 'via': 'session in its own process', 'plan': plan, 'session': 'last'})
+            sess.append({'lines': r['lines'], 'q': False, 'saved': sp, 'noload': r.get('noload', False)} if not r.get('noload')
+                        else {'lines': [], 'q': False, 'saved': None, 'noload': True})
+        return sess, {'quit_after_guesses': plan, 'via': 'one process per session (different string-hash seeds)', 'hash_seeds': hs}
+    rng_tag = rng.randrange(10 ** 6)
+    with ThreadPoolExecutor(core.NCPU) as ex:
+        return list(ex.map(run, [(k, p, hs) for k, (p, hs) in enumerate(zip(plans, seeds))]))
+
+
 def fresh_cfg(desc_flags=None):
     return session.new_save_config()
 
@@ -400,11 +459,12 @@ def main(pid, tier, seed):
     otraces = []
     tid = 0
     n_rules = 3 if tier == 'quick' else 12
+    n_process_histories = [0]
     igroups = []
     rcopy = core.repo_copy('cli') if pid == 'C12' else None
     for k in range(n_rules):
         path = os.path.join(work, 'r%d' % k)
-        desc = sessrules.make(rng, path, with_m=True, m_last=(k % 3 == 2))
+        desc = sessrules.make(rng, path, with_m=True, m_last=(k % 3 == 2), omen_model=(3 if k % 3 == 1 else None))
         E, PTS = sessrules.expected(path, with_pts=True)
         if pid == 'C12':
             scripts = [['q', 'block'], ['', 'q', 'block'], ['h', 'block'], ['EOF'], ['', 'EOF'], ['x', 'q', 'block'], ['block']]
@@ -419,6 +479,9 @@ def main(pid, tier, seed):
             hs += cli_histories(rcopy, name, E, tier)
         else:
             hs = quit_histories(path, E, rng, tier, work)
+            ph = process_histories(path, E, rng, tier, work)
+            n_process_histories[0] += len(ph)
+            hs += ph
         for sess, m in hs:
             tid += 1
             traces.append(build_trace(tid, E, sess))
@@ -504,7 +567,7 @@ def main(pid, tier, seed):
     distinct = len({json.dumps({k: v for k, v in t.items() if k != 'tid'}, sort_keys=True) for t in alltr})
     s = traces[min(4, len(traces) - 1)]
     cov = {'states': mc['states'], 'transitions': mc['transitions'],
-           'traces_validated_against_impl': len(alltr),
+           'traces_validated_against_impl': len(alltr), 'histories_with_one_process_per_session': n_process_histories[0],
            'samples': [{'meta': {k: v for k, v in meta[s['tid']].items() if k != 'ruleset'},
                         'sessions': [[p for p, g in x['x']] for x in s['sess']]}],
            'model_checking': mc, 'evaluations': len(alltr), 'distinct_nontrivial': distinct,
